@@ -33,10 +33,13 @@ package ipv4
 //@   requires len(vv.views) == 0 || len(vv.views[0]) < header.IPv4MinimumSize || be16(vv.views[0], 6) & 0x3fff == 0
 //@   modifies everything()
 
-// handleICMP itself never emits an ICMP message (replies are sent by the replier only).
+// handleICMP itself never emits an ICMP message (replies are sent by the replier only); the
+// request it queues for the replier carries all bytes after the 4-byte ICMP header, however
+// the packet is split into views.
 //@ func (*endpoint).handleICMP props C07 C13
 //@   requires epOK(e) && r != nil && vvOK(vv) && vv.size <= 0xffff
 //@   ensures ghost(icmpSent) == old(ghost(icmpSent))
+//@   at_send echoRequest requires len(x.v) == old(vv.size) - header.ICMPv4MinimumSize
 //@   modifies everything()
 
 //@ func (*endpoint).handleControl props C07
